@@ -857,6 +857,26 @@ def c09(run):
                 f = r.split(' ')
                 if f[2] == 'crash' or len(f[2]) <= 1:
                     run.fail({'program': src, 'answer': r[:200]}, 'runtime error message cannot be rendered')
+    # TREE level: the property says "any parseable program", the theorem says every syntax tree: trees no source text parses
+    # to (one-word / zero-word proper names, NaN, negative and infinite literals, inc by 0 or a negative amount) are run on
+    # both sides from the tree itself
+    from . import trees
+    tsrc = [t for t, k in cases if k not in ('catalogue',)][:run.n(300, 6000)]
+    pans = common.impl(['parse ' + hx(t) for t in tsrc])
+    tq, tmeta = [], []
+    for a in pans:
+        tr = trees.tree_of(a)
+        if tr is not None and len(tr) < 20000:
+            for lab, mt in trees.mutations(tr, rng):
+                tq.append('runt %s %s - - 20000' % (hx(mt), hx('a line\nanother\n'))); tmeta.append((lab, mt))
+    tm, tim = run.tie(tq, proj=proj_run, functional=True, desc=lambda i: {'tree': tmeta[i][1][:1500], 'variant': tmeta[i][0], 'section': 'tree level'})
+    for (lab, mt), r in zip(tmeta, tim):
+        if r is None:
+            continue
+        c = run_parts(r)[0]
+        run.case(('tree', mt), True, kind='tree-level:' + lab, outcome=c)
+        if c in ('crash', 'hang'):
+            run.fail({'tree': mt[:1500], 'variant': lab, 'answer': r[:200]}, 'running a syntax tree %s' % ('does not terminate' if c == 'hang' else 'crashes the interpreter'))
     # model-guided long histories: state carried across hundreds of different events inside ONE run
     lh, counts = long_histories(rng, 16, 60 if run.tier == 'quick' else 400, tries=3)
     lreqs = [run_req(t, 'a line\nanother\n' * 50, steps=200000) for t in lh]
